@@ -124,6 +124,21 @@ def events_for(env, rng, thorough):
         ra = P.outcome(lambda: (Scalar(a, 1.0) + Scalar(ObtainQuantity(other), 2.0)).GetValue())
         rb = P.outcome(lambda: (Scalar(b, 1.0) + Scalar(ObtainQuantity(other), 2.0)).GetValue())
         ev.append({"op": "SameReq", "call": name + ": a sum on each", "eq": ra == rb and ra[0] == "ok", "ne": ra != rb, "hash1": 0, "hash2": 0, "desc1": str(ra[1:]), "desc2": str(rb[1:]) if ra == rb else str(ra[1:])})
+    # the copy requests that name a composing map (MakeCopy / CreateCopyInstance): no map is the quantity itself, the empty map is the empty
+    # quantity, any other map is the quantity that map resolves to - whatever quantity the request is made on; the source is left as it was
+    for sname, src in (("simple m", ObtainQuantity("m", "length")), ("derived m/s", ObtainQuantity(OrderedDict([("length", ["m", 1]), ("time", ["s", -1])]))),
+                       ("empty", Quantity.CreateEmpty())):
+        snap = qalg.q_snapshot(src)
+        for mname in ("MakeCopy", "CreateCopyInstance"):
+            fn = getattr(src, mname)
+            for tname, arg, want in (("no map", None, src), ("the empty map", OrderedDict(), Quantity.CreateEmpty()),
+                                     ("the map cm2", OrderedDict([("length", ["cm", 2])]), ObtainQuantity(OrderedDict([("length", ["cm", 2])]))),
+                                     ("the map kg.s", OrderedDict([("mass", ["kg", 1]), ("time", ["s", 1])]), ObtainQuantity(OrderedDict([("mass", ["kg", 1]), ("time", ["s", 1])])))):
+                o = P.outcome(lambda: fn() if arg is None else fn(arg))
+                got = o[1] if o[0] == "ok" else None
+                ev.append({"op": "SameReq", "call": "%s.%s(%s) vs the quantity that map resolves to" % (sname, mname, tname), "eq": got is not None and bool(got == want) and (arg is not None or got is src),
+                           "ne": got is None or bool(got != want), "hash1": hash(got) if got is not None else 0, "hash2": hash(want), "desc1": desc(got) if got is not None else str(o[1:]), "desc2": desc(want)})
+        ev.append({"op": "Frozen", "call": "%s after the copy requests" % sname, "pre": repr(snap), "post": repr(qalg.q_snapshot(src))})
     # a pickle loaded after a registration emptied the database's quantity cache; a quantity built directly from an ordered map and never cached
     cold = [ObtainQuantity(OrderedDict([("time", ["s", 1]), ("length", ["m", 1])])), ObtainQuantity(OrderedDict([("length", ["m", 1]), ("time", ["s", -1])])),
             ObtainQuantity(OrderedDict([("length", ["cm", 2])])), ObtainQuantity("m", "length"), ObtainQuantity("<unknown>", "Unknown", "a caption"),
